@@ -1030,6 +1030,16 @@ int ov_fopen(const char *path,OggVorbis_File *vf){
 int ov_halfrate(OggVorbis_File *vf,int flag){
   int i;
   if(vf->vi==NULL)return OV_EINVAL;
+
+  /* set the flag before the decode machine is rebuilt below; the
+     rebuild sizes its MDCT and window lookups from it */
+  for(i=0;i<vf->links;i++){
+    if(vorbis_synthesis_halfrate(vf->vi+i,flag)){
+      if(flag) ov_halfrate(vf,0);
+      return OV_EINVAL;
+    }
+  }
+
   if(vf->ready_state>STREAMSET){
     /* clear out stream state; dumping the decode machine is needed to
        reinit the MDCT lookups. */
@@ -1043,13 +1053,6 @@ int ov_halfrate(OggVorbis_File *vf,int flag){
         int ret=ov_pcm_seek(vf,pos);
         if(ret)return(ret);
       }
-    }
-  }
-
-  for(i=0;i<vf->links;i++){
-    if(vorbis_synthesis_halfrate(vf->vi+i,flag)){
-      if(flag) ov_halfrate(vf,0);
-      return OV_EINVAL;
     }
   }
   return 0;
